@@ -20,6 +20,7 @@ import (
 	"time"
 
 	"github.com/cbeuw/Cloak/internal/client"
+	mux "github.com/cbeuw/Cloak/internal/multiplex"
 	vk "github.com/cbeuw/Cloak/internal/verifkit"
 )
 
@@ -221,6 +222,27 @@ func TestVerif_C06(t *testing.T) {
 						fail("post-handshake-conn", fmt.Sprintf("first message after the handshake arrived as (%d bytes, %v)", nn, err))
 					}
 				}
+				if vkind == "" && res.prepared != nil {
+					// ... and one from the server to the client (the client must have consumed exactly the server's flight)
+					msg := vk.Datagram(7, uint32(i), 300)
+					go res.prepared.Write(msg)
+					buf := make([]byte, 1024)
+					type rr struct {
+						n   int
+						err error
+					}
+					ch := make(chan rr, 1)
+					go func() { n, err := res.cliConn.Read(buf); ch <- rr{n, err} }()
+					vk.Wait()
+					select {
+					case x := <-ch:
+						if x.err != nil || !bytes.Equal(buf[:x.n], msg) {
+							fail("post-handshake-conn", fmt.Sprintf("the first server-to-client message after the handshake arrived at the client as (%d bytes, %v)", x.n, x.err))
+						}
+					default:
+						fail("post-handshake-conn", "the first server-to-client message after the handshake never came out of the client's connection")
+					}
+				}
 				if res.prepared != nil {
 					res.prepared.Close()
 				}
@@ -284,6 +306,50 @@ func TestVerif_C06(t *testing.T) {
 		}
 	}
 
+	// all connections of one new session at once (what client.MakeSession does with NumConn > 1), a
+	// database user and a user manager that is slow enough for them to overlap
+	sb := r.Pick(24, 400)
+	for i := 0; i < sb; i++ {
+		transport := []string{"direct", "cdn"}[i%2]
+		id := fmt.Sprintf("same-session-burst-%s-%d", transport, i)
+		if !r.Mine(id) {
+			continue
+		}
+		nconn := 2 + i%5
+		r.Case(id, map[string]any{"transport": transport, "connections": nconn})
+		var vkind, vdet string
+		prev := runtime.GOMAXPROCS([]int{1, 4, 16}[i%3])
+		p, leftover := vk.InBubble(t, func() {
+			res := sameSessionBurst(t, transport, nconn, r.Rand("c06b", i))
+			for k, c := range res {
+				switch {
+				case !c.done || c.err != nil:
+					vkind, vdet = "handshake-refused", fmt.Sprintf("connection %d of %d did not complete its handshake although it is correctly configured: done=%v err=%v", k, nconn, c.done, c.err)
+				case c.srvKey == nil:
+					vkind, vdet = "not-registered", fmt.Sprintf("connection %d completed its handshake but the server has no session under its id", k)
+				case *c.srvKey != c.key:
+					vkind, vdet = "session-key", fmt.Sprintf("connection %d of %d simultaneous connections of one new session was told a session key that differs from the key of the session the server keeps under that id", k, nconn)
+				}
+				if vkind != "" {
+					break
+				}
+			}
+		})
+		runtime.GOMAXPROCS(prev)
+		if p != nil && !leftover && vkind == "" {
+			vkind, vdet = "panic", fmt.Sprint(p)
+		}
+		r.Count("evaluations", 1)
+		r.Count("same_session_bursts", 1)
+		r.Count("same_session_connections", int64(nconn))
+		r.Distinct("cases", vk.Hash64("ssb", transport, i))
+		if vkind != "" {
+			r.Violation(id, "C06:"+vkind, vdet+fmt.Sprintf(" (%s transport, database user, yielding user manager)", transport), nil)
+		} else {
+			r.Pass(id)
+		}
+	}
+
 	// whole system: MakeSession against Serve
 	ws := r.Pick(16, 160)
 	for i := 0; i < ws; i++ {
@@ -312,9 +378,26 @@ func TestVerif_C06(t *testing.T) {
 				return
 			}
 			defer g.stopClients()
-			sesh := g.makeSession(remote, auth, c.Transport)
+			var sesh *mux.Session
+			if i%4 == 1 {
+				// the server is unreachable for the first 200+ seconds (dials fail), then comes back: the
+				// client, whose clock is right, must still get its session
+				t0 := time.Now()
+				outage := time.Duration(190+rng.IntN(200)) * time.Second
+				fd := func(int) error {
+					if time.Since(t0) < outage {
+						return fmt.Errorf("network unreachable")
+					}
+					return nil
+				}
+				g.lis.FailDial, g.cdnL.FailDial = fd, fd
+				sesh = g.makeSessionWithin(remote, auth, c.Transport, outage+60*time.Second)
+				r.Count("sessions_after_outage", 1)
+			} else {
+				sesh = g.makeSession(remote, auth, c.Transport)
+			}
 			if sesh == nil {
-				vkind, vdet = "handshake-refused", "a correctly configured client cannot establish its session: its handshakes keep failing"
+				vkind, vdet = "handshake-refused", "a correctly configured client cannot establish its session: its handshakes keep failing (in every fourth case after an outage of more than three minutes during which dials failed)"
 				return
 			}
 			st, err := sesh.OpenStream()
